@@ -275,9 +275,9 @@ func (n *memNet) remoteFor(addr string) *memRemote {
 	return r
 }
 
-func (r *memRemote) Address() string           { return r.addr }
+func (r *memRemote) Address() string             { return r.addr }
 func (r *memRemote) Start(e *actor.Engine) error { r.engine = e; return nil }
-func (r *memRemote) Stop() *sync.WaitGroup     { return &sync.WaitGroup{} }
+func (r *memRemote) Stop() *sync.WaitGroup       { return &sync.WaitGroup{} }
 func (r *memRemote) Send(pid *actor.PID, msg any, sender *actor.PID) {
 	// like the real remote, Send only queues the message object: it is serialised later, by the
 	// "writer" (the pump) - a sender that reuses the message's memory after Send corrupts it
